@@ -264,10 +264,14 @@ namespace occa {
         // Create check statement
         // Note: At this point, the tile for-loop has an update
         //       with either an [+=] or [-=] update operator
+        // The inner loop spans what the block loop advances by: TILE for ++/--,
+        // ((TILE) * (INC)) for += INC / -= INC (with TILE alone it dropped iterations).
+        // The increment is parenthesised: TILE may be an expression such as 4 + 4
+        expr blockIncrement = expr::parens(updateExpr.rightValue);
         expr bounds = expr::parens(
           (updateExpr.opType() & operatorType::addEq)
-          ? blockIterator + tileSizeExpr
-          : blockIterator - tileSizeExpr
+          ? blockIterator + blockIncrement
+          : blockIterator - blockIncrement
         );
 
         const binaryOperator_t &checkOp = (const binaryOperator_t&) checkExpr.op;
